@@ -17,6 +17,7 @@ import (
 	"github.com/ovn-org/libovsdb/database/inmemory"
 	"github.com/ovn-org/libovsdb/model"
 	"github.com/ovn-org/libovsdb/ovsdb"
+	"github.com/ovn-org/libovsdb/ovsdb/serverdb"
 	"github.com/ovn-org/libovsdb/server"
 	"verifharness/internal/dyn"
 )
@@ -186,3 +187,32 @@ func StartServer(m *dyn.Model, dir, name string) (*Server, error) {
 }
 
 func (s *Server) Close() { s.S.Close() }
+
+// StartClusterMember is StartServer plus the _Server database, so that
+// leader-only clients can ask the server whether it is the leader.
+func StartClusterMember(m *dyn.Model, dir, name string) (*Server, error) {
+	sdbm, err := serverdb.FullDatabaseModel()
+	if err != nil {
+		return nil, err
+	}
+	sschema := serverdb.Schema()
+	servMod, errs := model.NewDatabaseModel(sschema, sdbm)
+	if len(errs) > 0 {
+		return nil, fmt.Errorf("_Server model: %v", errs)
+	}
+	db := inmemory.NewDatabase(map[string]model.ClientDBModel{m.S.Name: m.Client, sschema.Name: sdbm})
+	s, err := server.NewOvsdbServer(db, m.DB, servMod)
+	if err != nil {
+		return nil, err
+	}
+	path := fmt.Sprintf("%s/%s.sock", dir, name)
+	_ = os.Remove(path)
+	go func() { _ = s.Serve("unix", path) }()
+	for i := 0; i < 400 && !s.Ready(); i++ {
+		time.Sleep(2 * time.Millisecond)
+	}
+	if !s.Ready() {
+		return nil, fmt.Errorf("server did not become ready")
+	}
+	return &Server{S: s, DB: db, Path: path}, nil
+}
